@@ -5,6 +5,7 @@ import (
 	"fmt"
 	"math/rand"
 	"runtime"
+	"strconv"
 	"strings"
 	"sync"
 	"unicode/utf8"
@@ -278,6 +279,22 @@ func c19Run(c *mon.Ctx, idx int) {
 	tree := xgen.RandTree(r, 1+r.Intn(5))
 	rd := &xgen.Renderer{R: r, MaxRedundantParens: 1}
 	txt := rd.Render(tree)
+	if idx%40 == 7 {
+		// a long literal with multi-byte runes straddling every plausible
+		// buffer boundary, nested one level down
+		n := []int{4094, 4095, 4096, 4097, 8190, 8191, 8192, 65534, 65535, 65536, 1 << 17}[(idx/40)%11]
+		long := strings.Repeat("a", n) + "é漢😀" + strings.Repeat("b", 7)
+		if (idx/40)%3 == 1 {
+			long = strings.Repeat("é", n/2) + strings.Repeat("😀", 1100) + "x"
+		}
+		op := []string{"==", "!=", "in", "not in"}[(idx/40)%4]
+		if op == "==" || op == "!=" {
+			txt = "lng " + op + " " + strconv.Quote(long) + " and (" + txt + ")"
+		} else {
+			txt = strconv.Quote(long) + " " + op + " lng and (" + txt + ")"
+		}
+		c.Count("long_literal_dumps")
+	}
 	obs := observeParse(txt, safeBudget)
 	if obs.Budgeted || obs.Err != nil || obs.Panic != "" {
 		c.Count("unparsed") // C16's subject
@@ -294,6 +311,14 @@ func c19Run(c *mon.Ctx, idx int) {
 		return
 	}
 	indents := []string{"", " ", "\t", "ab", "   ", "  ", "a", "abc", "\t. ", "%", "%s", "%%", "%-4d", "50% ", "\\", "\n", "é", "  | "}
+	if idx%10 == 3 {
+		// long indent units (longer than any fixed scratch buffer), not made of one repeated byte
+		unit := "0123456789abcdefghijklmnopqrstuvwxyz-"
+		for _, n := range []int{63, 64, 65, 100, 255, 256, 257, 1000} {
+			indents = append(indents, strings.Repeat(unit, n/len(unit)+1)[:n])
+		}
+		c.Count("long_indent_units")
+	}
 	r.Shuffle(len(indents), func(i, j int) { indents[i], indents[j] = indents[j], indents[i] })
 	for _, indent := range indents {
 		for level := 0; level <= 3; level++ {
@@ -496,7 +521,7 @@ func init() {
 		NumCases:    func(tier string) int { return tierN(tier, 12000, 500000) },
 		Run:         c19Run,
 		Required: func(tier string) []string {
-			l := []string{"dumps_compared", "concurrent_dump_rounds", "selector_strings", "node:pointer-selector", "node:Or", "node:And", "node:Not", "node:Quant", "node:Match", "node:bind:0", "node:bind:1", "node:bind:2", "node:bind:3"}
+			l := []string{"dumps_compared", "concurrent_dump_rounds", "long_literal_dumps", "long_indent_units", "selector_strings", "node:pointer-selector", "node:Or", "node:And", "node:Not", "node:Quant", "node:Match", "node:bind:0", "node:bind:1", "node:bind:2", "node:bind:3"}
 			for _, o := range xgen.OpNames {
 				l = append(l, "node:op:"+o)
 			}
